@@ -7,10 +7,10 @@ Lemma find_root_loop_range fuel f xa xe ff xtol : xa <= xe ->
   xa <= find_root_loop fuel f xa xe ff xtol /\ find_root_loop fuel f xa xe ff xtol <= xe.
 Proof.
   revert xa xe. induction fuel as [|k IH]; intros xa xe H; cbn [find_root_loop].
-  - rewrite Qred_correct. split; [apply Qle_shift_div_l|apply Qle_shift_div_r]; lra.
+  - unfold norm; rewrite Qred_correct. split; [apply Qle_shift_div_l|apply Qle_shift_div_r]; lra.
   - destruct (Qltb (Qabs (xa - xe)) xtol).
-    + rewrite Qred_correct. split; [apply Qle_shift_div_l|apply Qle_shift_div_r]; lra.
-    + cbv zeta. set (xm := Qred ((xa + xe) / 2)).
+    + unfold norm; rewrite Qred_correct. split; [apply Qle_shift_div_l|apply Qle_shift_div_r]; lra.
+    + cbv zeta. set (xm := norm ((xa + xe) / 2)).
       assert (Em : xm == (xa + xe) / 2) by apply Qred_correct.
       assert (A : xa <= xm) by (rewrite Em; apply Qle_shift_div_l; lra).
       assert (B : xm <= xe) by (rewrite Em; apply Qle_shift_div_r; lra).
@@ -22,10 +22,10 @@ Lemma find_root_loop_pos fuel f xa xe ff xtol : 0 <= xa -> xa <= xe -> 0 < xe ->
   0 < find_root_loop fuel f xa xe ff xtol.
 Proof.
   revert xa xe. induction fuel as [|k IH]; intros xa xe H0 H Hp; cbn [find_root_loop].
-  - rewrite Qred_correct. apply Qlt_shift_div_l; lra.
+  - unfold norm; rewrite Qred_correct. apply Qlt_shift_div_l; lra.
   - destruct (Qltb (Qabs (xa - xe)) xtol).
-    + rewrite Qred_correct. apply Qlt_shift_div_l; lra.
-    + cbv zeta. set (xm := Qred ((xa + xe) / 2)).
+    + unfold norm; rewrite Qred_correct. apply Qlt_shift_div_l; lra.
+    + cbv zeta. set (xm := norm ((xa + xe) / 2)).
       assert (Em : xm == (xa + xe) / 2) by apply Qred_correct.
       assert (A : xa <= xm) by (rewrite Em; apply Qle_shift_div_l; lra).
       assert (B : xm <= xe) by (rewrite Em; apply Qle_shift_div_r; lra).
@@ -75,15 +75,15 @@ Section EerFacts.
   (* which exit produced the result *)
   Inductive eer_exit (s : scores) (t e : Q) : Prop :=
   | ExitSepPos : score_class s = Pos -> nthZ (neg s) (len (neg s) - 1) < nthZ (pos s) 0 ->
-      t = (nthZ (pos s) 0 + nthZ (neg s) (len (neg s) - 1)) / 2 -> e = 0 -> eer_exit s t e
+      t = norm ((nthZ (pos s) 0 + nthZ (neg s) (len (neg s) - 1)) / 2) -> e = 0 -> eer_exit s t e
   | ExitSepNeg : score_class s = Neg -> nthZ (pos s) (len (pos s) - 1) < nthZ (neg s) 0 ->
-      t = (nthZ (pos s) (len (pos s) - 1) + nthZ (neg s) 0) / 2 -> e = 0 -> eer_exit s t e
+      t = norm ((nthZ (pos s) (len (pos s) - 1) + nthZ (neg s) 0) / 2) -> e = 0 -> eer_exit s t e
   | ExitEdge : (e = Qmin2 (hard_pos_ratio s) (hard_neg_ratio s) \/
                 (e = hard_pos_ratio s /\ hard_pos_ratio s < hard_neg_ratio s) \/
                 (e = hard_neg_ratio s /\ hard_neg_ratio s <= hard_pos_ratio s)) -> eer_exit s t e
   | ExitBisect : forall lft rgt, 0 < lft -> 0 < rgt ->
       lft <= Qmin2 (hard_pos_ratio s) (hard_neg_ratio s) -> rgt <= Qmin2 (hard_pos_ratio s) (hard_neg_ratio s) ->
-      e = Qred ((lft + rgt) / 2) -> t = t_fpr succ pred s e -> eer_exit s t e.
+      e = norm ((lft + rgt) / 2) -> t = t_fpr succ pred s e -> eer_exit s t e.
 
   Lemma eer_exits s t e : proper s -> eer s = Ret (t, e) -> eer_exit s t e.
   Proof.
@@ -104,7 +104,7 @@ Section EerFacts.
     match goal with |- context [find_root fuel ?f 0 ?m true ?x] =>
       destruct (find_root fuel f 0 m true x) as [lft|] eqn:FL; [|discriminate];
       destruct (find_root fuel f 0 m false x) as [rgt|] eqn:FR; [|discriminate] end.
-    intro E. assert (E' : (t_fpr succ pred s (Qred ((lft + rgt) / 2)), Qred ((lft + rgt) / 2)) = (t, e)) by congruence.
+    intro E. assert (E' : (t_fpr succ pred s (norm ((lft + rgt) / 2)), norm ((lft + rgt) / 2)) = (t, e)) by congruence.
     apply pair_equal_spec in E'. destruct E' as [E1 E2].
     destruct (find_root_range _ _ _ _ _ _ _ (Qlt_le_weak _ _ Hmax) FL) as [L1 L2], (find_root_range _ _ _ _ _ _ _ (Qlt_le_weak _ _ Hmax) FR) as [R1 R2].
     apply (ExitBisect s t e lft rgt); [apply (find_root_pos _ _ _ _ _ _ Hmax FL)|apply (find_root_pos _ _ _ _ _ _ Hmax FR)|exact L2|exact R2|symmetry; exact E2|].
@@ -125,7 +125,7 @@ Section EerFacts.
     - repeat split; lra.
     - repeat split; try lra. destruct (Qmin2_spec (hard_pos_ratio s) (hard_neg_ratio s)) as (_ & _ & [K|K]); rewrite K; lra.
     - repeat split; try lra. destruct (Qmin2_spec (hard_pos_ratio s) (hard_neg_ratio s)) as (_ & _ & [K|K]); rewrite K; lra.
-    - rewrite Qred_correct. set (mx := Qmin2 (hard_pos_ratio s) (hard_neg_ratio s)) in *.
+    - unfold norm; rewrite Qred_correct. set (mx := Qmin2 (hard_pos_ratio s) (hard_neg_ratio s)) in *.
       assert ((lft + rgt) / 2 <= mx) by (apply Qle_shift_div_r; lra).
       assert (0 <= (lft + rgt) / 2) by (apply Qle_shift_div_l; lra).
       repeat split; lra.
@@ -146,8 +146,8 @@ Section EerFacts.
     - (* separated, score_class = pos: neg <= nl < t < p0 <= pos *)
       rewrite cm_counts. cbn [cfp cfn]. rewrite Hsc.
       set (p0 := nthZ (pos s) 0) in *. set (nl := nthZ (neg s) (len (neg s) - 1)) in *.
-      assert (T1 : nl < t) by (subst t; apply Qlt_shift_div_l; lra).
-      assert (T2 : t < p0) by (subst t; apply Qlt_shift_div_r; lra).
+      assert (T1 : nl < t) by (subst t; unfold norm; rewrite Qred_correct; apply Qlt_shift_div_l; lra).
+      assert (T2 : t < p0) by (subst t; unfold norm; rewrite Qred_correct; apply Qlt_shift_div_r; lra).
       split; apply count_none.
       + eapply Forall_impl; [|apply (sorted_all_le (neg s) Hsn)]. simpl. intros a Ha. fold nl in Ha.
         destruct (equal_class s); cbn [dec lt_ext le_ext]; [apply negb_false_iff|apply negb_false_iff]; qb; lra.
@@ -156,8 +156,8 @@ Section EerFacts.
     - (* separated, score_class = neg: pos <= pl < t < n0 <= neg *)
       rewrite cm_counts. cbn [cfp cfn]. rewrite Hsc.
       set (pl := nthZ (pos s) (len (pos s) - 1)) in *. set (n0 := nthZ (neg s) 0) in *.
-      assert (T1 : pl < t) by (subst t; apply Qlt_shift_div_l; lra).
-      assert (T2 : t < n0) by (subst t; apply Qlt_shift_div_r; lra).
+      assert (T1 : pl < t) by (subst t; unfold norm; rewrite Qred_correct; apply Qlt_shift_div_l; lra).
+      assert (T2 : t < n0) by (subst t; unfold norm; rewrite Qred_correct; apply Qlt_shift_div_r; lra).
       split; apply count_none.
       + eapply Forall_impl; [|apply (sorted_all_ge (neg s) Hsn)]. simpl. intros a Ha. fold n0 in Ha.
         destruct (equal_class s); cbn [dec lt_ext le_ext]; qb; lra.
@@ -166,7 +166,7 @@ Section EerFacts.
     - exfalso. rewrite E0 in Z. lra.
     - exfalso. rewrite E0 in Z. lra.
     - exfalso. rewrite E0 in Z. lra.
-    - exfalso. rewrite E0, Qred_correct in Z. assert (0 < (lft + rgt) / 2) by (apply Qlt_shift_div_l; lra). lra.
+    - exfalso. unfold norm in E0. rewrite E0, Qred_correct in Z. assert (0 < (lft + rgt) / 2) by (apply Qlt_shift_div_l; lra). lra.
   Qed.
 
   (* ----- FPR side of the crossing: the false-positive count at the returned threshold is within
